@@ -11,6 +11,8 @@ CONSTANTS
   MaxDepth = 10
   MaxCols = 1
   Emit = FALSE
+  ObsV = {}
+  ObsT = {}
 VIEW View
 CONSTRAINT Bound
 INVARIANT InvRegistryExact
